@@ -4,7 +4,18 @@
  2. every non-test .go file of the listed repository packages that imports "sync" is copied with that import rewritten
     to the vsync shim (globbed at generation time, so a change that adds a mutex to another file is still owned)."""
 import json, os, re, sys
-REPO='/repo'; ROOT='/verif/overlay/files'; OUT='/verif/.work/overlay'
+REPO='/repo'; ROOT='/verif/overlay/files'
+# Optional (used by tools/mutcheck.sh only): a directory holding modified copies of repository files (same relative
+# paths) that take the place of /repo's, and alternative output locations, so that a candidate change can be checked
+# without touching /repo.
+OVERRIDE=os.environ.get('VERIF_OVERRIDE_DIR')
+OUT=os.environ.get('VERIF_OVERLAY_DIR','/verif/.work/overlay')
+OUT_JSON=os.environ.get('VERIF_OVERLAY_JSON','/verif/.work/overlay.json')
+def srcpath(p):
+    if OVERRIDE:
+        q=os.path.join(OVERRIDE, os.path.relpath(p, REPO))
+        if os.path.exists(q): return q
+    return p
 SYNC_DIRS=['chain','common','common/db','consensus','pillar','rpc/api/subscribe']
 os.makedirs(OUT, exist_ok=True)
 replace={}
@@ -21,14 +32,19 @@ for d in SYNC_DIRS:
         if not f.endswith('.go') or f.endswith('_test.go'): continue
         p=os.path.join(dd,f)
         if p in replace: continue
-        s=open(p).read()
+        s=open(srcpath(p)).read()
         if not pat.search(s): continue
         s2=pat.sub(r'\1sync "github.com/zenon-network/go-zenon/common/vsync"', s, count=1)
         o=os.path.join(OUT, d.replace('/','__')+'__'+f)
         if not os.path.exists(o) or open(o).read()!=s2:
             open(o,'w').write(s2)
         replace[p]=o; n+=1
-tmp='/verif/.work/overlay.json.tmp'
+if OVERRIDE:
+    for d,_,fs in os.walk(OVERRIDE):
+        for f in fs:
+            q=os.path.join(d,f); p=os.path.join(REPO, os.path.relpath(q, OVERRIDE))
+            if p not in replace: replace[p]=q
+tmp=OUT_JSON+'.tmp.%d'%os.getpid()
 json.dump({"Replace":replace}, open(tmp,'w'), indent=1)
-os.replace(tmp,'/verif/.work/overlay.json')
+os.replace(tmp,OUT_JSON)
 print(f"overlay: {len(replace)} files ({n} sync rewrites)", file=sys.stderr)
